@@ -533,9 +533,9 @@ func (x *Exec) reachable(sig *types.Signature, args []Value, dynamic bool) (keys
 // sure later materialisations under the prefix are fresh too.
 func (x *Exec) havocKey(st *State, prefix string) {
 	c := x.c
-	for k, srt := range c.heapKeys {
+	for _, k := range sortedKeys(c.heapKeys) {
 		if strings.HasPrefix(k, prefix) {
-			st.heap[k] = c.Fresh("Hh", srt)
+			st.heap[k] = c.Fresh("Hh", c.heapKeys[k])
 		}
 	}
 	// keys not yet known must not alias their pre-havoc value
